@@ -166,4 +166,6 @@ HashTag    == ThmHashTagR(R, P, B, KeysOf(env), SetupTracked, { 4, 5 })
 RangeOfOne == ThmRangeOfOneR(R, P, B, KeysOf(env), SetupTracked)
 \* all of the above with the result evaluated once
 AllTheorems == Theorems(P, B, KeysOf(env), SetupTracked, { 4, 5 })
+\* the three that need a single evaluation of the definition (used for the largest bound)
+CoreTheorems == ThmPositionsR(R, P, B) /\ ThmPartitionR(R, B, KeysOf(env), SetupTracked) /\ ThmErrorsR(R, P, B)
 ================================================================================
